@@ -565,17 +565,19 @@ class VariantBase(productmd.common.MetadataBase):
                     return self.variants[head][tail]
                 except KeyError:
                     pass
+            # UIDs are absolute; inside a variant the name is relative to it
+            full = "%s-%s" % (self.uid, name) if hasattr(self, "uid") else name
             # then look for the UID ($variant-optional on top-level)
             for i in self.variants:
                 var = self.variants[i]
-                if var.uid == name:
+                if var.uid == full:
                     return var
             # ... or for a descendant of a variant whose own UID contains a dash
             for i in self.variants:
                 var = self.variants[i]
-                if "-" in var.uid and name.startswith(var.uid + "-"):
+                if "-" in var.uid and full.startswith(var.uid + "-"):
                     try:
-                        return var[name[len(var.uid) + 1:]]
+                        return var[full[len(var.uid) + 1:]]
                     except KeyError:
                         pass
             return self.variants[head][tail]
